@@ -92,6 +92,7 @@ def c29(c):
     c.cov['exhaustive'] = True
     c.cov['expected_outcomes'] = {k[4:]: v for k, v in cnt.items() if k.startswith('exp:')}
     c.cov['rows_with_alternatives'] = cnt.get('rows_with_alternatives', 0)
+    c.cov['bit_flipped_streams_no_panic'] = cnt.get('noise_runs', 0)
     c.cov['rule'] = ('every frame sequence of the blocks of spec/WsReader/WsReader.tla Init%s (%s) x connection parameters '
                      '(compression negotiated, read limit, decompressed limit) x truncation of the last frame, each run on a '
                      'server-side and a client-side Conn in two read modes; non-trivial = at least one frame'
